@@ -280,6 +280,43 @@ static generator<int, int> body1(CtxBase *c, const long *s, int n) {
     }
 }
 
+// ---- a move-observable value type: moving from it empties the source (like std::string) ----
+struct MV {
+    int v = 0;
+    MV() = default;
+    explicit MV(int x) : v(x) {}
+    MV(const MV &) = default;
+    MV &operator=(const MV &) = default;
+    MV(MV &&o) noexcept : v(o.v) { o.v = 0; }
+    MV &operator=(MV &&o) noexcept {
+        v = o.v;
+        o.v = 0;
+        return *this;
+    }
+};
+inline long vh_val(int x) { return x; }
+inline long vh_val(const MV &x) { return x.v; }
+
+// generator<MV>: kind 1 yields a TEMPORARY MV(a); kind 10 adds a to a LOCAL that lives across the yields and yields
+// that local as an lvalue (the body keeps using it afterwards)
+static generator<MV> bodyt(CtxBase *c, const long *s, int n) {
+    std::optional<Guard> g0, g1, g2, g3;
+    int ng = 0;
+    MV local;
+    for (int i = 0; i + 1 < n; i += 2) {
+        long k = s[i], a = s[i + 1];
+        switch (k) {
+            case 1: co_yield MV((int)a); break;
+            case 10:
+                local.v += (int)a;
+                co_yield local;
+                break;
+            BODY_COMMON_CASES
+            default: break;
+        }
+    }
+}
+
 template <bool A>
 static Gen<A> body(CtxBase *c, const long *s, int n) {
     if constexpr (A) return body1(c, s, n);
@@ -287,15 +324,23 @@ static Gen<A> body(CtxBase *c, const long *s, int n) {
 }
 
 
+// runs f from inside a running coroutine (start it under coro_queue::install_queue_and_call to have the thread's
+// resumption queue active, as in any async<> / future<> coroutine)
+inline task run_in_coro(std::function<void()> f) {
+    f();
+    co_return;
+}
+
 // called from inside a consumer awaiter's resume function, i.e. while the yielding thread is still inside the
 // notification (yield_suspend::await_suspend -> caller->resume()); the two-thread harness makes it a scheduling point
 inline void (*g_notify_hook)() = nullptr;
 
 // ---- the consumer: one generator object read in freely mixed styles ----
-template <bool A>
+template <bool A, typename V = int>
 struct Ctx : CtxBase {
-    std::optional<Gen<A>> gen;
-    std::optional<typename Gen<A>::iterator> it;
+    using G = std::conditional_t<A, generator<V, int>, generator<V>>;
+    std::optional<G> gen;
+    std::optional<typename G::iterator> it;
     bool created = false;
 
     auto do_next() {
@@ -309,7 +354,7 @@ struct Ctx : CtxBase {
     Result read_value() {
         Result r;
         try {
-            r.val = gen->value();
+            r.val = vh_val(gen->value());
             r.kind = K_VAL;
         } catch (const TestExc &e) {
             r.kind = K_EXC;
@@ -323,7 +368,7 @@ struct Ctx : CtxBase {
     Result read_future(F &f) {
         Result r;
         try {
-            r.val = *f;
+            r.val = vh_val(*f);
             r.kind = K_VAL;
         } catch (const TestExc &e) {
             r.kind = K_EXC;
@@ -359,7 +404,7 @@ struct Ctx : CtxBase {
                         else ++*it;
                         if (*it != gen->end()) {
                             try {
-                                r.val = **it;
+                                r.val = vh_val(**it);
                                 r.kind = K_VAL;
                             } catch (const TestExc &e) {
                                 r.kind = K_EXC;
@@ -397,7 +442,7 @@ struct Ctx : CtxBase {
         }
     };
     CountAwt cawt;
-    std::optional<typename Gen<A>::next_awt> sub_next;
+    std::optional<typename G::next_awt> sub_next;
     bool sub_active = false;
     long cnt_report = 0;
 
@@ -454,7 +499,7 @@ struct Ctx : CtxBase {
         }
     };
     RearmAwt rawt;
-    std::vector<std::unique_ptr<typename Gen<A>::next_awt>> chain_next;   // kept alive: their subscribe() may still be on a stack
+    std::vector<std::unique_ptr<typename G::next_awt>> chain_next;   // kept alive: their subscribe() may still be on a stack
     std::function<void(Result)> line_out;
     bool chain_done = true;
     int chain_arg = 0;
@@ -467,7 +512,7 @@ struct Ctx : CtxBase {
         argv = chain_arg++;
         rawt.count = 0;
         try {
-            chain_next.emplace_back(new typename Gen<A>::next_awt(do_next()));
+            chain_next.emplace_back(new typename G::next_awt(do_next()));
             auto &n = *chain_next.back();
             if (n.await_ready()) {
                 Result r;
@@ -502,6 +547,12 @@ struct Ctx : CtxBase {
         chain_done = false;
         chain_arg = arg;
         chain_step();
+    }
+
+    // the synchronous styles executed from inside a running coroutine (the thread's resumption queue is active)
+    task sync_access_in_coro(int style) {
+        sync_access(style);
+        co_return;
     }
 
     task async_access(int style) {
